@@ -17,7 +17,7 @@ mod mach;
 mod prng;
 mod workloads;
 
-use forkutil::{in_child, write_all_fd, ChildEnd};
+use forkutil::{in_child, in_child_idle, write_all_fd, ChildEnd};
 
 use checks::{Check, Tier};
 use serde_json::{json, Value};
@@ -275,7 +275,7 @@ fn cmd_run(args: &[String]) -> i32 {
             idx = end;
             continue;
         }
-        let (buf, ended) = in_child(timeout_ms * (end - idx) as i64, |fd| run_batch(&mut check, fd, idx, end));
+        let (buf, ended) = in_child_idle(timeout_ms * (end - idx) as i64, timeout_ms, |fd| run_batch(&mut check, fd, idx, end));
         // forward complete lines; find the last started run
         let text = String::from_utf8_lossy(&buf);
         let mut last_started: Option<u64> = None;
@@ -378,6 +378,8 @@ fn cmd_shrink(args: &[String]) -> i32 {
             }
         },
     };
+    // every candidate that still hangs costs a full watchdog period: keep those searches short
+    let budget = if want.contains("crash:timeout") { budget.min(12) } else { budget };
     let mut cur = file["case"].clone();
     let mut spent = 0;
     let mut steps = 0;
